@@ -57,7 +57,7 @@ CHECKS = {
  "C17": ("exploration", "transport-condition monitor (interval Hall condition) + combined-accuracy quantile oracle",
          "Runtime monitoring: sources (both variants, both signs) converted over all 9 ordered mapping-kind pairs x alpha pairs with scales in [1e-3,1e3] incl. bin-aligned factors, 40% of the sources converted before answering any query; result mapping, untouched source, zero weight, total weight, absence of non-positive bins, Min/MaxIndex, the per-boundary transport inequalities, the combined-accuracy quantile rule, identity = independent exact copy, and exact statistics rescaling are asserted.",
          "Trusted: classification tolerance 1e-9 at bin bounds and weight slivers 1e-9 W; values well inside both ranges.", "§4 C17"),
- "C18": ("exploration", "independent reference codec + complete sweep of all byte strings of length <= 2 + seeded hostile strings",
+ "C18": ("exploration", "independent reference codec + complete sweep of all byte strings of length <= 2 + seeded hostile strings + fresh-process probes + Go race detector pass over the codec functions",
          "Runtime monitoring: all primitive codecs are compared with an independent reference on 2^k+-d values, every bit-length class, extremes, random 64-bit patterns (as uint, int and float bits) with arbitrary prefixes/trailers, every strict prefix, and on every byte string of length <= 2 (complete) plus random strings up to 12 bytes: bytes, values, sizes, framing, EOF-without-consumption, int32 range, no panic, <= 9 bytes.",
          "Trusted: reference codec; the <=2-byte sweep is the only complete enumeration.", "§4 C18"),
  "C19": ("exploration", "serialize/restore monitor with bitwise probe agreement and (in)equality matrix",
@@ -66,6 +66,26 @@ CHECKS = {
  "C20": ("exploration", "reference-model monitor (own sort, exact rank, 2200-bit sum)",
          "Runtime monitoring: interleaved Add/query/Merge histories on the dataset helper with duplicates, negatives, unsorted arrival and additions after queries, whole checkpoints and single queries asked on their own right after additions, small value pools; lower/upper quantiles compared with the order statistics at floor/ceil of the rank (float and exact product both accepted), NaN rules, exact min/max/count, sum bound, merge == adding all.",
          "Trusted: q=NaN is outside the stated domain.", "§4 C20"),
+}
+
+# appended to the level texts: what rounds 7-8 of the seeded changes and the coverage measurement added
+LATER = {
+ "C02": " A quarter of the merges go into a copy of the receiver (accumulator idiom); the part the copy came from is re-observed at the end.",
+ "C04": " Kept protobuf messages are consumed up to three times, also into cleared or new stores that then go on in place; hand-written blocks in the three documented layouts (signed deltas, negative/zero strides, repeats) are decoded into the live store.",
+ "C05": " The walk also consumes kept protobuf messages several times and decodes hand-written blocks with negative/zero strides into collapsed receivers.",
+ "C06": " 40% of the concatenations are decoded into stores recycled by the provider (earlier decode, queried, cleared).",
+ "C08": " Receivers are fresh, non-empty, or used over the source's index range and cleared (retained memory).",
+ "C09": " Half of the sources are converted again after a decode replaced their mapping by an Equals-but-not-identical one (earlier message scribbled on); half of the rebuilt sketches go on and the same message is read a second time.",
+ "C10": " Refused merges (also into an empty or just cleared receiver) are among the rejected calls; exact sketches also go through the protobuf form with statistics rebuilt by NewSummaryStatisticsFromData / NewDDSketchWithExactSummaryStatisticsFromData; one case in ten drives stat.SummaryStatistics directly (Add, AddToCount/AddToSum, MergeWith, Reweight, Rescale, Copy, Clear, FromData); same-signed sums beyond the float64 range must be the infinity of that sign.",
+ "C11": " Every answer of the batch query is judged like a single answer; a fifth of the multisets receive their tail as an encoding decoded after a query.",
+ "C12": " Identity conversions (equal mapping, scale 1) are part of the histories.",
+ "C13": " Non-positive Reweight factors are also sent to the sketch's two stores; merges of very coarse mappings (bases 1e3..1e15) must be refused; whether a merge is refused must not depend on merges accepted before (near-twin chains).",
+ "C15": " The store walk also consumes kept protobuf messages several times and decodes hand-written blocks.",
+ "C16": " 70% of the sketches are queried right before the call, 30% receive a refused Reweight first, 60% go on afterwards (reweighted sketch and scaled-adds twin absorb the same further additions and are compared again); sparse-store exact sketches are pushed beyond the float64 range by the reweighting (sum must be the infinity of its sign).",
+ "C17": " Half of the results are queried through the batch entry point.",
+ "C18": " The first case of every worker process probes one function family before anything else of the package has run; a race-instrumented pass lets 4x8 goroutines encode/decode into their own buffers (round trips verified, any DATA RACE report is a violation).",
+ "C19": " Near twins (base/offset differing in the last bits; zero vs tiny offset): Equals symmetric, each read back as itself right after its twin in all three forms; messages are values (edited/recycled, then ToProto again); the second mapping of the case is read back in the same process.",
+ "C20": " A dataset is merged with itself and the same argument twice; same-signed values near the top of the float64 range (overflowed sum = infinity of that sign).",
 }
 
 NOT_YET = {}
@@ -80,6 +100,7 @@ def main():
     for i in ids:
         if i in CHECKS:
             cat, tech, text, note, ref = CHECKS[i]
+            text = text + LATER.get(i, "")
             checks.append({
                 "property_id": i,
                 "quick_cmd": f"./check {i} quick",
@@ -103,7 +124,7 @@ def main():
             "source_commits": hook_shas,
             "add_only": True,
         },
-        "engines": [{"name": "vh", "path": "/verif/harness", "serves_properties": sorted(CHECKS), "kind_free_text": "Go harness: seeded workload generators, monitor wrappers with shadow models, process-isolated workers, witness replay; race-detector build for C14"}],
+        "engines": [{"name": "vh", "path": "/verif/harness", "serves_properties": sorted(CHECKS), "kind_free_text": "Go harness: seeded workload generators, monitor wrappers with shadow models, process-isolated workers, witness replay; race-detector build (C14 aliasing pass, C18 codec pass) for C14"}],
         "checks": checks,
         "notes": "All checks are runtime monitors over executions of the real code (see DESIGN.md). Exit 0 held / 1 violation / 2 inconclusive. VERIF_SEED selects the PRNG stream; case lists are PRNG-determined, never time-budgeted.",
         "not_applicable": na,
